@@ -27,6 +27,8 @@ VARIANTS = {
     'tsan': ('g++', ['-O1', '-fsanitize=thread'], ['-fsanitize=thread', '-pthread'], False),
     'tsan-clang': ('clang++-14', ['-O1', '-fsanitize=thread', '-stdlib=libstdc++'], ['-fsanitize=thread', '-pthread'], False),
     'plain': ('g++', ['-O1'], ['-ldl', '-rdynamic', '-pthread'], True),
+    # line coverage of the repository's code under the workloads (tools/coverage.py); not used by any check
+    'cov': ('g++', ['-O0', '--coverage', '-fprofile-update=atomic'], ['--coverage', '-ldl', '-rdynamic', '-pthread'], True),
 }
 
 TULZ_SRC = {
